@@ -297,7 +297,9 @@ func calcPositionIfNeededHevc(pkt *RtpPacket) {
 	// +-------------+-----------------+
 
 	outerNaluType := hevc.ParseNaluType(b[0])
-	if _, ok := hevc.NaluTypeMapping[outerNaluType]; ok {
+	// rfc7798 4.4.1: 小于48的类型都是单一nal包，包括NaluTypeMapping中没有列出的类型(比如EOS, EOB, filler data)，
+	// 否则这个包永远无法被取出，后续的包全部被阻塞直到缓存队列满
+	if outerNaluType < NaluTypeHevcAp {
 		pkt.positionType = PositionTypeSingle
 		return
 	}
